@@ -1,7 +1,8 @@
 (* C18 — fast_merkle_root is the definitional midstate merkle tree for every leaf count.
    Only statements; proofs live in Proofs/FastMerkle.v. *)
 From Coq Require Import List.
-From EV Require Import Model.FastMerkle Proofs.FastMerkle.
+From Coq Require Import NArith.
+From EV Require Import Model.FastMerkle Proofs.FastMerkle Proofs.FastMerkleImpl.
 Import ListNotations.
 
 (* the incremental (binary counter) algorithm of the code equals the level-by-level definition, for every list,
@@ -21,6 +22,13 @@ Theorem C18_depends : forall (H : Type) (zero : H) (cmp : H -> H -> H) (eq_dec :
   l = l' \/ exists a b c d, (a, b) <> (c, d) /\ cmp a b = cmp c d.
 Proof. intros H zero cmp eq_dec l l' L E. rewrite !ctr_is_spec in E. exact (spec_depends H zero cmp eq_dec l l' L E). Qed.
 
+(* the code as written — a 32-entry array, a u32 counter, the carry loop and the final sweep on fuel 32, `None` on counter
+   overflow — never overflows and returns the definitional root for every list of at most 2^31 leaves.  (Beyond 2^31 leaves,
+   i.e. > 64 GiB of input, the final sweep's `count += 1 << level` can overflow the u32 counter; not reachable in practice.) *)
+Theorem C18_code_refines : forall (H : Type) (zero : H) (cmp : H -> H -> H) (l : list H),
+  (N.of_nat (length l) <= 2147483648)%N -> fmr_impl zero cmp l = Some (fmr_spec zero cmp l).
+Proof. intros H zero cmp l Hl. rewrite (impl_is_ctr H zero cmp l Hl). f_equal. apply ctr_is_spec. Qed.
+
 (* non-vacuity: a 5-leaf tree over a free (injective) compression has the promoted last node where the property says *)
 Inductive tr := L (n : nat) | Nd (a b : tr) | Z.
 Example C18_shape5 : fmr_ctr Z Nd [L 1; L 2; L 3; L 4; L 5] = Nd (Nd (Nd (L 1) (L 2)) (Nd (L 3) (L 4))) (L 5).
@@ -33,6 +41,12 @@ Check (C18_refines : forall (H : Type) (zero : H) (cmp : H -> H -> H) (l : list 
 Check (C18_depends : forall (H : Type) (zero : H) (cmp : H -> H -> H) (eq_dec : forall a b : H, {a = b} + {a <> b})
   (l l' : list H), length l = length l' -> fmr_ctr zero cmp l = fmr_ctr zero cmp l' ->
   l = l' \/ exists a b c d, (a, b) <> (c, d) /\ cmp a b = cmp c d).
+Check (C18_code_refines : forall (H : Type) (zero : H) (cmp : H -> H -> H) (l : list H),
+  (N.of_nat (length l) <= 2147483648)%N -> fmr_impl zero cmp l = Some (fmr_spec zero cmp l)).
+Example C18_code_shape7 : fmr_impl Z Nd [L 1; L 2; L 3; L 4; L 5; L 6; L 7]
+  = Some (Nd (Nd (Nd (L 1) (L 2)) (Nd (L 3) (L 4))) (Nd (Nd (L 5) (L 6)) (L 7))).
+Proof. reflexivity. Qed.
 Print Assumptions C18_refines.
+Print Assumptions C18_code_refines.
 Print Assumptions C18_small.
 Print Assumptions C18_depends.
